@@ -241,6 +241,7 @@ func buildPKI(thorough bool) *pkiSet {
 	p224 := ec("p224", elliptic.P224())
 	r2048 := rs("2048", 2048)
 	r1024 := rs("1024", 1024)
+	r2560 := rs("2560", 2560)
 	_, edKey := must2(ed25519.GenerateKey(newDetReader("ed")))
 
 	ps := &pkiSet{byName: map[string]*Bundle{}}
@@ -280,6 +281,9 @@ func buildPKI(thorough bool) *pkiSet {
 
 	// ---- unsupported but parseable shapes
 	add(&Bundle{Name: "rsa1024-pkcs1-keyonly", PEM: pkcs1(r1024, ""), Slow: true, Note: "RSA size outside the table"})
+	add(&Bundle{Name: "rsa2560-pkcs1-keyonly", PEM: pkcs1(r2560, ""), Slow: true, Note: "RSA size between the table entries"})
+	add(&Bundle{Name: "supported-key-then-rsa2560", PEM: cat(sec1(p256c, "k2"), pkcs1(r2560, "odd")), Slow: true, KeyID: "k2",
+		Note: "the selected key is fine, another entry has an RSA size between the table entries"})
 	add(&Bundle{Name: "rsa1024-pkcs8-selfsigned", PEM: cat(p8(r1024, ""), certPEM(selfSigned("r1", r1024, true))), Slow: true})
 	add(&Bundle{Name: "ec224-sec1-keyonly", PEM: sec1(p224, ""), Note: "curve outside the table"})
 	add(&Bundle{Name: "ec224-pkcs8-selfsigned", PEM: cat(p8(p224, ""), certPEM(selfSigned("p224", p224, true)))})
